@@ -81,14 +81,15 @@ func (c c11call) String() string {
 }
 
 type c11pkg struct {
-	calls    []c11call
-	twoFiles bool
-	userFn   bool
-	userVar  bool // the user's callables are package-level variables of function type, not func declarations
-	lateUse  bool // the user functions are called only from the last file (two-file layout)
-	pregen   bool // derived.gen.go already holds the output for the first call alone (an earlier run)
-	late     bool // every call after the first takes a derive call as its first argument: clashes only show in a second pass
-	inner    bool // every call after the first is itself the argument of another derive call (renamed in pass 1, the outer call typed in pass 2)
+	calls     []c11call
+	twoFiles  bool
+	userFn    bool
+	userVar   bool // the user's callables are package-level variables of function type, not func declarations
+	lateUse   bool // the user functions are called only from the last file (two-file layout)
+	pregen    bool // derived.gen.go already holds the output for the first call alone (an earlier run)
+	late      bool // every call after the first takes a derive call as its first argument: clashes only show in a second pass
+	splitLast bool // two files: only the last call is in the second file (default: only the first call is in the first)
+	inner     bool // every call after the first is itself the argument of another derive call (renamed in pass 1, the outer call typed in pass 2)
 }
 
 func (p c11pkg) label() string {
@@ -99,6 +100,9 @@ func (p c11pkg) label() string {
 	l := strings.Join(ss, ", ")
 	if p.twoFiles {
 		l += " [two files]"
+	}
+	if p.splitLast {
+		l += " [only the last call in the second file]"
 	}
 	if p.userFn && !p.userVar {
 		l += " [user funcs deriveEqual_/deriveCompare_ called]"
@@ -161,6 +165,9 @@ func (p c11pkg) files0() pkgFiles {
 	split := len(p.calls)
 	if p.twoFiles {
 		split = 1
+	}
+	if p.twoFiles && p.splitLast {
+		split = len(p.calls) - 1
 	}
 	if p.lateUse {
 		split = len(p.calls) // every derive call in the first file, the user functions' only use in the last
@@ -285,13 +292,16 @@ func checkC11(tier string) {
 					pkgs = append(pkgs, c11pkg{calls: append([]c11call(nil), cur...), twoFiles: two, late: true})
 					pkgs = append(pkgs, c11pkg{calls: append([]c11call(nil), cur...), twoFiles: two, inner: true})
 				}
+				if two && len(cur) >= 3 {
+					pkgs = append(pkgs, c11pkg{calls: append([]c11call(nil), cur...), twoFiles: true, splitLast: true})
+				}
 				for _, uf := range []int{0, 1, 2} {
-					pkgs = append(pkgs, c11pkg{append([]c11call(nil), cur...), two, uf > 0, uf == 2, false, false, false, false})
+					pkgs = append(pkgs, c11pkg{calls: append([]c11call(nil), cur...), twoFiles: two, userFn: uf > 0, userVar: uf == 2})
 					if len(cur) >= 2 && !two && uf < 2 {
-						pkgs = append(pkgs, c11pkg{append([]c11call(nil), cur...), two, uf > 0, false, false, true, false, false})
+						pkgs = append(pkgs, c11pkg{calls: append([]c11call(nil), cur...), twoFiles: two, userFn: uf > 0, pregen: true})
 					}
 					if two && uf > 0 {
-						pkgs = append(pkgs, c11pkg{append([]c11call(nil), cur...), two, true, uf == 2, true, false, false, false})
+						pkgs = append(pkgs, c11pkg{calls: append([]c11call(nil), cur...), twoFiles: two, userFn: true, userVar: uf == 2, lateUse: true})
 					}
 				}
 			}
